@@ -382,7 +382,7 @@ func c05Unit(c *RunCtx, unit int) {
 			final, finalCls := respell(s, t.Token)
 			if kind == "recover" {
 				// a weak password with the genuine token: nothing changes, token stays valid
-				step(litTok(kind, 0, ai, t.Token, "genuine+weak-password", pickS(r, "short", "alllowercase1!", "NoDigits!!", "With Space1!A", "")))
+				step(litTok(kind, 0, ai, t.Token, "genuine+weak-password", pickS(r, "short", "alllowercase1!", "NoDigits!!", "With Space1!A", "", " Lead1ng!space", "Trail1ng!space ", "\tTabbed1!pass", "Newl1ne!pass\n")))
 				switch r.Intn(4) {
 				case 0:
 					age := ttl - time.Nanosecond - s.W.Now().Sub(t.IssuedAt)
